@@ -761,8 +761,8 @@ func init() {
 		if thorough {
 			k = 20
 		}
-		Cases(t, r, b*k*tr.EnvInt("STORE_PLAIN", 150), "plain")
-		Cases(t, r, b*k*tr.EnvInt("STORE_FAULTS", 200), "faults")
+		Cases(t, r, b*k*tr.EnvInt("STORE_PLAIN", 100), "plain")
+		Cases(t, r, b*k*tr.EnvInt("STORE_FAULTS", 130), "faults")
 		if template != "" {
 			defer os.RemoveAll(template)
 		}
@@ -774,7 +774,7 @@ func init() {
 		if thorough {
 			k = 20
 		}
-		Cases(t, r, b*k*tr.EnvInt("STORE_CRASHES", 300), "crashes")
+		Cases(t, r, b*k*tr.EnvInt("STORE_CRASHES", 220), "crashes")
 		if template != "" {
 			defer os.RemoveAll(template)
 		}
